@@ -322,7 +322,12 @@ func (sc SimpleColumn) WriteTo(store ReadOnlyFactStore, w io.Writer) error {
 					return fmt.Errorf("malformed fact: %v predicate arity %d: %w", f, p.Arity, ErrWrongArgument)
 				}
 				// line h + k: <column: argument x_j for fact k>
-				if _, err := fmt.Fprint(w, f.Args[i].String()); err != nil {
+				text := f.Args[i].String()
+				if c, ok := f.Args[i].(ast.Constant); ok && c.Type == ast.NameType {
+					// The reader percent-unescapes names, so a literal percent sign has to be escaped.
+					text = strings.ReplaceAll(text, "%", "%25")
+				}
+				if _, err := fmt.Fprint(w, text); err != nil {
 					return err
 				}
 				if _, err := fmt.Fprintln(w); err != nil {
